@@ -139,9 +139,18 @@ def oracle(ctx, s, hs, tree, schema, HedString, HedTag, validate=True):
             hs3 = HedString(p1, schema)
             if getattr(hs3, form)() != p1 or len(hs3.get_all_tags()) != len(hs.get_all_tags()):
                 return f"reparse-{form}-differs"
-            if hs3 != hs and [str(t) for t in hs3.get_all_tags()] != [str(t) for t in hs.get_all_tags()]:
-                pass
+            # "... and re-parsing yields an equal tree": same shape, and every tag equal (HedTag.__eq__) to the tag at
+            # the same place of the original tree
+            if strip_texts(tree_of(hs3, HedTag)) != strip_texts(tree):
+                return f"reparse-{form}-shape-differs"
+            if not all(t3 == t for t3, t in zip(hs3.get_all_tags(), hs.get_all_tags())):
+                return f"reparse-{form}-tags-not-equal"
     return None
+
+
+def strip_texts(tree):
+    """shape of a tree_of() result: nesting only"""
+    return [strip_texts(n[3]) if n[0] == "g" else "t" for n in tree]
 
 
 def signature(s, clause):
@@ -216,7 +225,8 @@ def run(ctx):
         ctx.check_time()
 
     # corpus first
-    corpus = [")(", "Red)(Blue", "", " ", "a", "(a)", "((a),b) , c", "a,,b", "( )", "a (b)", " a , ( b ) "]
+    corpus = [")(", "Red)(Blue", "", " ", "a", "(a)", "((a),b) , c", "a,,b", "( )", "a (b)", " a , ( b ) ",
+              "Red/", "(Red/, Blue)", "Event/Sensory-event/", "Label/", "(Label/ , (Item/Object/))"]
     run_batch(corpus, schema, True)
     # exhaustive sweep: tokens for all lengths, trees/validation for shorter ones
     nmax = 7 if ctx.quick() else 9
@@ -241,7 +251,8 @@ def run(ctx):
     # random strings over real vocabulary and odd characters
     pieces = ["Red", "Blue", "Sensory-event", "Label/x y", "Duration/3 s", "Def/Abc", "Item/Object", "Green ",
               " ", "  ", ",", "(", ")", "/", "#", "{", "}", ":", "\t", " ", "é", "中", "~", "[", "]", "a", "B c",
-              "(Red,Blue)", "((", "))", ", ,", "Event/Sensory-event", "sc:Red", "Onset", " "]
+              "(Red,Blue)", "((", "))", ", ,", "Event/Sensory-event", "sc:Red", "Onset", " ",
+              "Red/", "Event/Sensory-event/", "Label/", "red/", "Item/Object/", "Duration/"]
     nrand = 3000 if ctx.quick() else 60000
     rnd = []
     for _ in range(nrand):
